@@ -51,7 +51,7 @@ MIN_COUNTERS = {
               'pairs_friendly': 100, 'astrometry_judged': 50000, 'form_3d': 500, 'form_4d': 500,
               'form_compressed': 500, 'form_bscale_f32': 500, 'form_bscale_int': 500, 'invalid_specs': 50},
     'thorough': {'band_loads': 250000, 'pairs_judged': 9000, 'pairs_edge_last': 5000,
-                 'pairs_edge_interior_only': 500, 'pairs_friendly': 300, 'astrometry_judged': 200000,
+                 'pairs_edge_interior_only': 500, 'pairs_friendly': 100, 'astrometry_judged': 200000,
                  'form_3d': 3000, 'form_4d': 3000, 'form_compressed': 3000, 'form_bscale_f32': 3000,
                  'form_bscale_int': 3000, 'invalid_specs': 200},
 }
@@ -112,7 +112,7 @@ def cases(seed, tier):
         for j in rng.choice(len(pool), size=min(cnt, len(pool)), replace=False):
             add(form, pool[j][0], pool[j][1], 'edge_' + ep[pool[j]])
     # edge pairs beyond 2000 rows
-    big_rows = sorted(set(int(r) for r in rng.integers(2001, 20001, 120 if quick else 1500)))
+    big_rows = sorted(set(int(r) for r in rng.integers(2001, 20001, 120 if quick else 4000)))
     epb = edge_pairs(big_rows)
     by_rows = {}
     for (rows, n) in sorted(epb):
@@ -123,7 +123,7 @@ def cases(seed, tier):
     # uniform sample
     for form, cnt in (('2d', 250), ('3d', 40), ('4d', 40), ('ext1', 20), ('int', 20), ('bscale_f32', 40),
                       ('bscale_int', 40), ('compressed', 60)):
-        cnt = cnt if quick else cnt * 5
+        cnt = cnt if quick else cnt * 10
         for _ in range(cnt):
             hi = 20000 if form != 'compressed' else 700
             rows = int(rng.integers(1, hi + 1)) if rng.random() < 0.5 else int(rng.integers(1, 300))
@@ -156,7 +156,17 @@ def cases(seed, tier):
             out.append({'kind': 'pairs', 'form': form, 'work': chunk, 'seed': [seed, form, len(out)]})
     for form in FORMS:
         out.append({'kind': 'invalid', 'form': form, 'seed': [seed, 'invalid', form]})
-    return out
+    # interleave the file forms so that the first reported violations show every mechanism, not only the 2-D one
+    per = {}
+    for c in out:
+        per.setdefault(c['form'], []).append(c)
+    mixed = []
+    order = ('compressed', 'bscale_int', '2d', '3d', '4d', 'ext1', 'int', 'bscale_f32')
+    while any(per.values()):
+        for form in order:
+            if per.get(form):
+                mixed.append(per[form].pop(0))
+    return mixed
 
 
 # ----------------------------------------------------------------------------- file builder
